@@ -24,6 +24,7 @@ import ast
 import itertools
 import json
 import os
+import time
 import random
 
 import numpy as np
@@ -171,8 +172,32 @@ def run_forked(fn, tag):
             traceback.print_exc()
             os._exit(3)
     os.close(w)
-    with os.fdopen(r, "rb") as f:
-        blob = f.read()
+    # watchdog: a child that neither finishes nor crashes within the limit is
+    # killed and reported like a crash (with the last noted input)
+    import select
+    import signal
+    limit = float(os.environ.get("VERIF_C09_CHILD_LIMIT", "1500"))
+    t0 = time.time()
+    chunks = []
+    timed_out = False
+    while True:
+        left = limit - (time.time() - t0)
+        if left <= 0:
+            timed_out = True
+            break
+        rd, _, _ = select.select([r], [], [], min(left, 5.0))
+        if rd:
+            b = os.read(r, 1 << 16)
+            if not b:
+                break
+            chunks.append(b)
+    os.close(r)
+    if timed_out:
+        try:
+            os.kill(pid, signal.SIGKILL)
+        except OSError:
+            pass
+    blob = b"" if timed_out else b"".join(chunks)
     _, status = os.waitpid(pid, 0)
     last = None
     if os.path.exists(path):
